@@ -55,6 +55,8 @@ type tScenario struct {
 	Mapped     bool            // addresses in 16-byte IPv4-mapped form
 	Small      bool            // also explored without state pruning
 	Expect     []byte          // honest network: IDs of the K closest (checked when the lookup ran to its stall)
+	Fine       bool            // lock releases are scheduling points too
+	MinPB      int             // at least this preemption bound in the pruned tier (small scenarios only)
 }
 
 func tID(b byte) (id krpc.ID) { id[19] = b; return }
@@ -310,6 +312,7 @@ func runTraversal(t *testing.T, scn *tScenario, prefix []int, envMode bool) (x e
 	p := Bubble(t, func() {
 		c = newE2(prefix, horizon)
 		defer c.done()
+		c.S.Fine = scn.Fine
 		c.envMode = envMode
 		c.isEnv = func(t *verifsched.Thread) bool {
 			return strings.HasPrefix(t.Name, "h:") || (strings.HasPrefix(t.Name, "q:") && t.Kind == "dq-ret")
